@@ -145,3 +145,50 @@ func (r *retained) set(g orb.Geometry, what string) {
 	}
 	r.g, r.snap, r.what = g, refmodel.Copy(g), what
 }
+
+// partsIndependent fills the spare capacity behind every point slice of g (what a caller's append to that part would
+// write) and reports whether all visible vertices of g are still what they were: two parts of one result must not be
+// windows into the same array with one part's spare capacity running into the next part.
+func partsIndependent(g orb.Geometry) bool {
+	if g == nil {
+		return true
+	}
+	snap := refmodel.Copy(g)
+	var fill func(g orb.Geometry)
+	pts := func(ps []orb.Point) {
+		spare := ps[len(ps):cap(ps)]
+		for i := range spare {
+			spare[i] = orb.Point{math.NaN(), math.NaN()}
+		}
+	}
+	fill = func(g orb.Geometry) {
+		switch x := g.(type) {
+		case orb.MultiPoint:
+			pts(x)
+		case orb.LineString:
+			pts(x)
+		case orb.Ring:
+			pts(x)
+		case orb.MultiLineString:
+			for _, l := range x {
+				pts(l)
+			}
+		case orb.Polygon:
+			for _, l := range x {
+				pts(l)
+			}
+		case orb.MultiPolygon:
+			for _, p := range x {
+				for _, l := range p {
+					pts(l)
+				}
+			}
+		case orb.Collection:
+			for _, m := range x {
+				fill(m)
+			}
+		}
+	}
+	fill(g)
+	return refmodel.EqualBits(g, snap)
+}
